@@ -26,7 +26,7 @@ CONSTANTS Keys,        \* a set of integers (user keys, ordered)
           Vers,        \* versions that may be written (MAXV = plain API)
           Vals,        \* value tokens
           MaxFid, MaxWrites, MaxImm, MaxL0, MaxHist,
-          Enabled      \* subset of optional actions: "L0ToL0", "Reopen", "Versioned"
+          Enabled      \* subset of options: "L0ToL0", "Reopen", "GC", "Versioned", "Monotone"
 
 MAXV == 1000000
 NONE == "none"
@@ -138,6 +138,8 @@ Init == /\ mem = Empty /\ memSeg = 1 /\ imm = <<>> /\ L0 = {} /\ ing1 = {} /\ ma
 Write(k, w, val) ==
     /\ writes < MaxWrites
     /\ w = MAXV \/ "Versioned" \in Enabled
+    \* "Monotone": versions of a key are written in non-decreasing order (what MVCC users do)
+    /\ "Monotone" \in Enabled => \A u \in Vers : Has(ref, <<k, u>>) => u <= w
     /\ mem' = [mem EXCEPT ![<<k, w>>] = val]
     /\ ref' = [ref EXCEPT ![<<k, w>>] = val]
     /\ writes' = writes + 1
